@@ -111,7 +111,10 @@ def _pty_run(cmd, rows, cols, stdin_chunks=None, pause=0.0):
                     return False
                 if not d:
                     return False
-                out += d
+                if len(out) < (16 << 20):      # a process that prints for ever must not fill memory
+                    out += d
+                if time.time() >= end:         # ... nor keep this loop from ever reaching its deadline
+                    return True
             elif time.time() >= end:
                 return True
 
